@@ -507,6 +507,62 @@ func runC12(r *evid.Run) {
 	})
 	r.Set("linked_goroutine_programs_compared", linkedCompared)
 
+	// ---- goroutines joined by an unbuffered channel (GoChan): the streams on both sides ------------------------
+	chanRows := filepath.Join(scratch, "chan.ndjson")
+	cres, err := tlc.Run(tlc.Options{SpecDir: specDir, Module: "GoChan", Cfg: "GoChan.cfg", Workers: 1, Timeout: 5 * time.Minute, Env: map[string]string{"ROWS": chanRows}})
+	if err != nil || !cres.OK() {
+		r.Inconclusive("tlc GoChan: %v", err)
+		return
+	}
+	states += cres.Distinct
+	transitions += cres.Generated
+	var chanCompared int64
+	readNDJSON(chanRows, func(b []byte) error {
+		var row struct {
+			Expr   string   `json:"expr"`
+			WAdd   int      `json:"wadd"`
+			Main   []uint64 `json:"main"`
+			Worker []uint64 `json:"worker"`
+		}
+		if json.Unmarshal(b, &row) != nil {
+			return nil
+		}
+		src := goChanSource(row.Expr, row.WAdd)
+		res := runBondgo(bin, filepath.Join(scratch, "sem"), src, 8, "", 20*time.Second)
+		ctx := map[string]interface{}{"source": src, "row": row}
+		if res.status != "ok" || len(res.bmJSON) == 0 {
+			r.Violate("no-termination:channel", fmt.Sprintf("bondgo does not compile two goroutines joined by a channel (%s): %s", res.status, tailStr(res.out, 300)), ctx)
+			return nil
+		}
+		streams, err := simulateAllOutputs(res.bmJSON, 800)
+		if err != nil {
+			r.Violate("emitted-machine-not-simulable", fmt.Sprintf("the machine bondgo emitted for two goroutines joined by a channel cannot be simulated: %v", err), ctx)
+			return nil
+		}
+		ctx["simulated_by_processor"] = streams
+		has := func(want []uint64) bool {
+			for _, st := range streams {
+				if len(st) < len(want) {
+					continue
+				}
+				ok := true
+				for i, w := range want {
+					ok = ok && st[i][1] == w
+				}
+				if ok {
+					return true
+				}
+			}
+			return false
+		}
+		chanCompared++
+		if !has(row.Worker) || !has(row.Main) {
+			r.Violate("wrong-output:channel-transfer", fmt.Sprintf("main sends %s on a channel and the worker writes what it receives plus %d: no processor writes the worker's stream %v (main's stream %v written: %v)", row.Expr, row.WAdd, row.Worker, row.Main, has(row.Main)), ctx)
+		}
+		return nil
+	})
+	r.Set("channel_programs_compared", chanCompared)
+
 	// ---- a catalogue of language features: compilation terminates and does not depend on the schedule -----------
 	var featureRuns int64
 	for _, ft := range goFeatureSources() {
@@ -701,4 +757,91 @@ func goFeatureSources() [][2]string {
 		{"a function called from a goroutine's loop", head + "func twice(v uint8) uint8 {\n\treturn v + v\n}\n\nfunc worker() {\n\tvar o1 bondgo.Output\n\tvar reg_v uint8\n\to1 = bondgo.Make(bondgo.Output, 2)\n\tfor {\n\t\treg_v++\n\t\treg_v = twice(reg_v)\n\t\tbondgo.IOWrite(o1, reg_v)\n\t}\n}\n\nfunc main() {\n\tvar o0 bondgo.Output\n\tvar reg_a uint8\n\to0 = bondgo.Make(bondgo.Output, 1)\n\tgo worker()\n\tfor {\n\t\treg_a++\n\t\tbondgo.IOWrite(o0, reg_a)\n\t}\n}\n"},
 		{"variables declared in nested blocks", head + "func main() {\n\tvar o0 bondgo.Output\n\tvar reg_a uint8\n\to0 = bondgo.Make(bondgo.Output, 1)\n\tfor {\n\t\t{\n\t\t\tvar reg_b uint8\n\t\t\treg_b = reg_a + 1\n\t\t\t{\n\t\t\t\tvar reg_c uint8\n\t\t\t\treg_c = reg_b + 1\n\t\t\t\treg_a = reg_c\n\t\t\t}\n\t\t}\n\t\tbondgo.IOWrite(o0, reg_a)\n\t}\n}\n"},
 	}
+}
+
+// goChanSource is a row of GoChan as Go source.
+func goChanSource(expr string, wadd int) string {
+	e := map[string]string{"x": "reg_x", "x+x": "reg_x + reg_x", "x+5": "reg_x + 5"}[expr]
+	w := "reg_v"
+	if wadd != 0 {
+		w = fmt.Sprintf("reg_v + %d", wadd)
+	}
+	return "package main\n\nimport \"bondgo\"\n\nfunc worker(c chan uint8) {\n\tvar o1 bondgo.Output\n\tvar reg_v uint8\n\to1 = bondgo.Make(bondgo.Output, 2)\n\tfor {\n\t\treg_v = <-c\n\t\tbondgo.IOWrite(o1, " + w + ")\n\t}\n}\n\n" +
+		"func main() {\n\tvar o0 bondgo.Output\n\tvar reg_x uint8\n\tvar c chan uint8\n\to0 = bondgo.Make(bondgo.Output, 1)\n\tgo worker(c)\n\tfor {\n\t\treg_x++\n\t\tc <- " + e + "\n\t\tbondgo.IOWrite(o0, reg_x)\n\t}\n}\n"
+}
+
+// goRunCmd (development aid): compiles a Go source with the real bondgo, simulates the emitted machine
+// and prints the values every processor writes to its outputs.
+func goRunCmd(path string) int {
+	src, err := os.ReadFile(path)
+	if err != nil {
+		fmt.Println(err)
+		return 2
+	}
+	scratch, _ := os.MkdirTemp("", "bmverif-gorun-")
+	defer os.RemoveAll(scratch)
+	bin := filepath.Join(scratch, "bondgo")
+	build := exec.Command("go", "build", "-tags", "verif", "-o", bin, "./cmd/bondgo")
+	build.Dir = repoDir()
+	if out, err := build.CombinedOutput(); err != nil {
+		fmt.Println(string(out), err)
+		return 2
+	}
+	res := runBondgo(bin, filepath.Join(scratch, "cc"), string(src), 8, "", 20*time.Second)
+	fmt.Println("status:", res.status)
+	fmt.Println(tailStr(res.out, 800))
+	fmt.Println(res.asmText)
+	if len(res.bmJSON) == 0 {
+		return 1
+	}
+	streams, err := simulateAllOutputs(res.bmJSON, 600)
+	fmt.Println("streams:", streams, "err:", err)
+	hs, err := hdlOutputChanges(res.bmJSON, 1500)
+	fmt.Println("hdl output changes:", hs, "err:", err)
+	return 0
+}
+
+// hdlOutputChanges runs the generated Verilog of an emitted machine for nclk clocks and returns, for
+// every external output, the successive values it shows (a new entry whenever the value changes).
+func hdlOutputChanges(bmJSON []byte, nclk int) (outs [][]uint64, err error) {
+	defer func() {
+		if e := recover(); e != nil {
+			err = fmt.Errorf("panic: %v", e)
+		}
+	}()
+	bm, err := loadMachine(bmJSON)
+	if err != nil {
+		return nil, err
+	}
+	sim, _, err := elaborateBM(bm)
+	if err != nil {
+		return nil, err
+	}
+	for i := 0; i < bm.Inputs; i++ {
+		sim.Set(fmt.Sprintf("i%d", i), 0)
+	}
+	sim.Set("reset", 1)
+	if err := sim.Step("clk"); err != nil {
+		return nil, err
+	}
+	sim.Set("reset", 0)
+	if err := powerUpZero(sim); err != nil {
+		return nil, err
+	}
+	outs = make([][]uint64, bm.Outputs)
+	for t := 0; t < nclk; t++ {
+		if err := sim.Step("clk"); err != nil {
+			return outs, fmt.Errorf("clock %d: %v", t, err)
+		}
+		for o := 0; o < bm.Outputs; o++ {
+			v, known := sim.Get(fmt.Sprintf("o%d", o))
+			if !known {
+				continue
+			}
+			if n := len(outs[o]); n == 0 || outs[o][n-1] != v {
+				outs[o] = append(outs[o], v)
+			}
+		}
+	}
+	return outs, nil
 }
